@@ -20,4 +20,12 @@ theorem C13_lock_facts_present :
     (Generated.lockFacts.map Prod.fst).contains "AddRemoteSource" = true ∧
     (Generated.lockFacts.map Prod.fst).contains "AddRegistrySource" = true := by decide
 
+/-- **C13_resolvePending_holds_lock.** `resolvePending` takes the lock once and gives it up only in a
+deferred function, i.e. when it returns: the fetcher, the registry client and the dependency finders —
+whose callbacks append to the queues without locking — all run with `b.mu` held, which is what makes one
+`resolvePending` an atomic step of the interleaving model (`C13_interleave`).  Extracted on every run
+(`Generated.resolvePendingLockOps`: number of `Lock()` calls, number of `Unlock()` calls outside deferred
+functions); releasing the lock around a callback changes the fact and this no longer checks. -/
+theorem C13_resolvePending_holds_lock : Generated.resolvePendingLockOps = (1, 0) := by decide
+
 end Slug
